@@ -32,13 +32,27 @@ class HookedMap(dict):
     its state, another thread getting its turn)"""
 
     def get(self, key, default=None):
-        if HOOK['armed']:
-            HOOK['count'] += 1
-            if HOOK['count'] == HOOK['at']:
-                HOOK['armed'] = False
-                HOOK['do']()
-                HOOK['armed'] = True
+        hook_point()
         return dict.get(self, key, default)
+
+
+def hook_point():
+    if HOOK['armed']:
+        HOOK['count'] += 1
+        if HOOK['count'] == HOOK['at']:
+            HOOK['armed'] = False
+            HOOK['do']()
+            HOOK['armed'] = True
+
+
+class HookedInterface(InterfaceClass):
+    """an interface whose hash is computed by Python code (every dictionary
+    access keyed by it -- the lookup caches, the table of extendor lists --
+    is then a point where other code runs)"""
+
+    def __hash__(self):
+        hook_point()
+        return InterfaceClass.__hash__(self)
 
 
 class Hooked:
@@ -69,7 +83,10 @@ class World:
         mod = 'walkworld%d' % World.serial
         self.R = {1: InterfaceClass('R1', (Interface,), __module__=mod)}
         self.R[2] = InterfaceClass('R2', (self.R[1],), __module__=mod)
-        self.P = {1: InterfaceClass('P', (Interface,), __module__=mod)}
+        # (every other case: the looked-up provided interface hashes through
+        # Python code)
+        PC = HookedInterface if (childlib.CASE[0] or 0) % 2 else InterfaceClass
+        self.P = {1: PC('P', (Interface,), __module__=mod)}
         self.P[2] = InterfaceClass('PA', (self.P[1],), __module__=mod)
         self.P[3] = InterfaceClass('PB', (self.P[1],), __module__=mod)
         self.reg = (HAR if job['flavour'] == 'push' else HVAR)()
